@@ -86,6 +86,12 @@ size_t ref_hdr_encode(const ref_hdr *f, uint8_t *out, size_t cap)
 		if ((total & 0xFF) == 0) out[o++] = 0, ++total;
 		put16(out, (unsigned) (f->os == 'K' ? total - 2 : total));
 	}
+	if (f->level == 1) {
+		/* the additive checksum covers the base part only and is itself covered by the common CRC */
+		unsigned s = 0;
+		for (i = 2; i < 2 + (size_t) out[0]; ++i) s += out[i];
+		out[1] = (uint8_t) s;
+	}
 	/* common CRC: over the whole header with the CRC field(s) zero */
 	{
 		int any = 0;
@@ -96,11 +102,6 @@ size_t ref_hdr_encode(const ref_hdr *f, uint8_t *out, size_t cap)
 			for (k = 0; k < f->next; ++k)
 				if (f->ext[k].type == 0 && f->ext[k].len >= 2) put16(out + extpos[k], c);
 		}
-	}
-	if (f->level == 1) {
-		unsigned s = 0;
-		for (i = 2; i < 2 + (size_t) out[0]; ++i) s += out[i];
-		out[1] = (uint8_t) s;
 	}
 	return o;
 }
